@@ -339,6 +339,39 @@ func c10r3(w *World, rr *RuleRun) {
 		}
 	})
 	rr.Oblige("NewServer", "secret filled from crypto/rand", w.P.Pos(ns.Pos()), okRand, "")
+	// rand.Read fills len(secret) bytes: the buffer must have a fixed non-trivial length
+	nSec := 0
+	for _, st := range w.FieldWrites([]*ssa.Function{ns}, secret) {
+		s, ok := st.(*ssa.Store)
+		if !ok {
+			continue
+		}
+		nSec++
+		var ln int64 = -1
+		switch mk := s.Val.(type) {
+		case *ssa.MakeSlice:
+			if n, ok := ConstInt(mk.Len); ok {
+				ln = n
+			}
+		case *ssa.Slice:
+			// new([N]byte)[:] lowering of make with constant size
+			if al, ok := mk.X.(*ssa.Alloc); ok && mk.Low == nil {
+				if at, ok := al.Type().Underlying().(*types.Pointer).Elem().Underlying().(*types.Array); ok {
+					ln = at.Len()
+					if mk.High != nil {
+						ln = -1
+						if n, ok := ConstInt(mk.High); ok {
+							ln = n
+						}
+					}
+				}
+			}
+		}
+		rr.At(w, st, "the secret buffer handed to crypto/rand has a constant length of at least 8 bytes", ln >= 8, fmt.Sprintf("length %d", ln))
+	}
+	if nSec == 0 {
+		rr.Oblige("NewServer", "the secret buffer handed to crypto/rand has a constant length of at least 8 bytes", w.P.Pos(ns.Pos()), false, "no store to tokenServer.secret")
+	}
 	// timeNow hook: only tests set it
 	tn := w.P.Field("", "tokenServer", "timeNow")
 	ws := w.FieldWrites(w.P.LibFuncs, tn)
